@@ -104,6 +104,14 @@ func (r *ctlRunner) stageOf(t *task.Task) int {
 func (r *ctlRunner) Run(t *task.Task) error {
 	r.mu.Lock()
 	i := r.stageOf(t)
+	if r.entered[i] && r.free == nil {
+		// the same stage is handed to the Runner a second time: recorded (the monitors judge it), answered at once so that
+		// the first run's release is not lost and the exploration goes on
+		r.trace = append(r.trace, []interface{}{"S", i})
+		r.trace = append(r.trace, []interface{}{"R", i, false})
+		r.mu.Unlock()
+		return errors.New("stage started twice")
+	}
 	r.entered[i] = true
 	r.trace = append(r.trace, []interface{}{"S", i})
 	if r.cancelled {
